@@ -205,6 +205,7 @@ func runC11(c *fw.Ctx) {
 		c11Blobs(c, g, ct, consts, known[ct.lean], model)
 	}
 	c11Chain(c, g, known, model)
+	c11PolicyDirected(c, g, known, model)
 	res.CountN("types", len(ts))
 	res.CountN("types-with-generated-schema", len(known))
 	c11Compare(c, model)
